@@ -1,6 +1,7 @@
 package props
 
 import (
+	"bufio"
 	"bytes"
 	"encoding/binary"
 	"fmt"
@@ -378,13 +379,13 @@ func mergeSweepNT(c *explore.Ctx, k, K, maxDocs int, cfgs []mergeCfg, check func
 func init() {
 	register(&explore.Prop{
 		ID: "C04", Level: levelMC, Explorer: "E1 + reachability over segment states",
-		Rule: "state space of segments reachable by New (MIX x modes, STORED-S, DV-S, empty batch, document counts 127..129, 255..257, 1024, 1025 built and merged, segments with 130/300 fields and 300-byte field names) and by merge trees to depth 2 (every MERGE(k=2) output, then each output merged alone / with drops / with everything dropped / with itself / with three fixed partners in both orders); states de-duplicated per worker by exact byte image; each state is loaded from memory (exact-capacity copy) and from a file-backed io.ReaderAt and fully observed; " +
+		Rule: "state space of segments reachable by New (MIX x modes, STORED-S, DV-S, empty batch, document counts 127..129, 255..257, 1024, 1025 built and merged, segments with 130/300 fields and 300-byte field names) and by merge trees to depth 2 (every MERGE(k=2) output, then each output merged alone / with drops / with everything dropped / with itself / with three fixed partners in both orders); states de-duplicated per worker by exact byte image; each state is loaded from memory (exact-capacity copy; and embedded in a larger buffer with other bytes around it) and from a file-backed io.ReaderAt and fully observed; " +
 			"states = distinct byte images per worker, transitions = build/merge operations; non-trivial = every state (degenerate shapes counted separately in counters.degenerate_states)",
 		Assumptions: commonAssumptions, Budget: qBudget, Run: runC04,
 	})
 	register(&explore.Prop{
 		ID: "C11", Level: levelMC, Explorer: "E1 + reachability over segment states",
-		Rule: "same reachable state space as C04; for each state the persisted file is checked: 44-byte footer, CRC-32/IEEE of all preceding bytes in the last 4 bytes, footer numDocs/version/chunkMode equal to the loaded segment's accessors, returned byte count, Load(bytes).WriteTo reproduces the bytes exactly (memory- and file-backed, two load/persist rounds), and repeated WriteTo calls on one and the same segment object (built or loaded) write identical files; " +
+		Rule: "same reachable state space as C04; for each state the persisted file is checked: 44-byte footer, CRC-32/IEEE of all preceding bytes in the last 4 bytes, footer numDocs/version/chunkMode equal to the loaded segment's accessors, returned byte count (also into *bufio.Writer destinations of three sizes, empty or already holding bytes), Load(bytes).WriteTo reproduces the bytes exactly (memory- and file-backed, two load/persist rounds), and repeated WriteTo calls on one and the same segment object (built or loaded) write identical files; " +
 			"states/transitions as C04",
 		Assumptions: commonAssumptions, Budget: qBudget, Run: runC11,
 	})
@@ -441,6 +442,27 @@ func runC04(c *explore.Ctx) {
 		}
 		if d := obs.Diff(of, want, obs.CAll); d != "" {
 			c.Violate(scope, idx, sigOf("C04", "loaded-file", d), d, st.desc)
+			return
+		}
+		// the image embedded in a larger buffer with other bytes before and after it (spare capacity
+		// beyond the file: anything that reads by cap() or past the footer sees garbage, not a panic)
+		big := make([]byte, len(st.bytes)+64)
+		for i := range big {
+			big[i] = 0xA5
+		}
+		copy(big[17:], st.bytes)
+		var le segment.Segment
+		if msg := explore.Guard(func() { le, err = ice.Load(segment.NewDataBytes(big[17 : 17+len(st.bytes)])) }); msg != "" || err != nil {
+			c.Violate(scope, idx, sigOf("C04", "load", "error: "+errText(msg, err))+"/embedded"+zs, errText(msg, err), st.desc)
+			return
+		}
+		oe, err := observe(le)
+		if err != nil {
+			c.Violate(scope, idx, sigOf("C04", "observe-embedded", "error: "+err.Error())+zs, err.Error(), st.desc)
+			return
+		}
+		if d := obs.Diff(oe, want, obs.CAll); d != "" {
+			c.Violate(scope, idx, sigOf("C04", "loaded-embedded", d), d, st.desc)
 		}
 	})
 }
@@ -525,6 +547,29 @@ func runC11(c *explore.Ctx) {
 					}
 					c.Violate(scope, idx, "C11/repersist/"+what, fmt.Sprintf("round %d (%s-backed): re-persisted file %s (len %d vs %d)", round, backing, what, len(b2), len(b)), st.desc)
 					return
+				}
+				// destinations that are themselves buffered writers (bufio.NewWriter returns its argument
+				// when that already is a large enough *bufio.Writer): small, exactly the default size, large,
+				// and one that already holds bytes the caller wrote before
+				if round == 1 {
+					for _, bs := range []int{16, 4096, 1 << 20} {
+						for _, pending := range []int{0, 3} {
+							var sink bytes.Buffer
+							bw := bufio.NewWriterSize(&sink, bs)
+							bw.Write(make([]byte, pending))
+							var nb int64
+							var werr error
+							if msg := explore.Guard(func() { nb, werr = cur.WriteTo(bw, nil) }); msg != "" {
+								werr = fmt.Errorf("%s", msg)
+							}
+							bw.Flush()
+							if werr != nil || nb != int64(len(b)) || sink.Len() != pending+len(b) || !bytes.Equal(sink.Bytes()[pending:], b) {
+								closeF()
+								c.Violate(scope, idx, "C11/buffered-destination", fmt.Sprintf("WriteTo(*bufio.Writer size %d holding %d bytes): err=%v returned n=%d, file has %d bytes, destination received %d, identical=%v", bs, pending, werr, nb, len(b), sink.Len()-pending, sink.Len() >= pending && bytes.Equal(sink.Bytes()[pending:], b)), st.desc)
+								return
+							}
+						}
+					}
 				}
 				// the same object persisted again must write the same file (a segment is immutable,
 				// however often it is persisted)
